@@ -202,11 +202,20 @@ class Layout(object):
 
 
 def gen_layout(rng, cc2=None, nnull=None, nctl=None, old_len=None, align=None, filler=None, trailing=None,
-               uid0=None, min_capacity=0, gap=None, near_end=False):
+               uid0=None, min_capacity=0, gap=None, near_end=False, adjacent=None, attempts=None):
     """a random well-formed layout (see module doc).  Reserved ranges never touch the prefix TLVs nor the first
-    four bytes of the NDEF Message TLV (its T byte and the up to three L bytes)."""
-    for _attempt in range(200):
-        lay = _gen_once(rng, cc2, nnull, nctl, old_len, align, filler, trailing, uid0, gap, near_end)
+    four bytes of the NDEF Message TLV (its T byte and the up to three L bytes), except with
+
+    adjacent = 2 | 4 | True (one of both): one control TLV reserves a range that starts DIRECTLY behind the length
+    field of the NDEF Message TLV that is stored on the tag: at ndef_off + 2 with a stored message of less than 255
+    bytes (1-byte length), at ndef_off + 4 with a stored message of 255 or more bytes (3-byte length).  The range lies
+    on value bytes only (the value continues behind it), never on the T or L bytes of the TLV that is present.  A
+    writer that stores 255 or more bytes on an `adjacent = 2` layout would have to put L bytes on reserved bytes:
+    see length_field_on_reserved()."""
+    if adjacent is True:
+        adjacent = rng.choice([2, 2, 4])
+    for _attempt in range(attempts or (400 if adjacent else 200)):
+        lay = _gen_once(rng, cc2, nnull, nctl, old_len, align, filler, trailing, uid0, gap, near_end, adjacent)
         if lay is not None and lay.capacity >= min_capacity:
             chk = ref_read(lay.mem)
             assert chk.status == "ndef" and chk.ndef_off == lay.ndef_off and chk.message == lay.old and \
@@ -216,8 +225,18 @@ def gen_layout(rng, cc2=None, nnull=None, nctl=None, old_len=None, align=None, f
     raise RuntimeError("no layout found for the constraints")
 
 
-def _gen_once(rng, cc2, nnull, nctl, old_len, align, filler, trailing, uid0, gap, near_end):
+def length_field_on_reserved(ndef_off, reserved, n):
+    """storing an n byte message in the NDEF Message TLV at ndef_off needs a length field that covers reserved bytes
+    (such a TLV is outside the layouts the tag properties quantify over: 'reserved ranges anywhere except on the NDEF
+    TLV's own tag and length-field bytes')"""
+    field = (ndef_off, ndef_off + 1) if n < 255 else (ndef_off, ndef_off + 1, ndef_off + 2, ndef_off + 3)
+    return any(a in reserved for a in field)
+
+
+def _gen_once(rng, cc2, nnull, nctl, old_len, align, filler, trailing, uid0, gap, near_end, adjacent=None):
     lay = Layout()
+    if adjacent == 4 and cc2 is None:
+        cc2 = rng.choice([c for c in CC2_CHOICES if c >= 34] + [rng.randrange(40, 256)])
     lay.cc2 = cc2 if cc2 is not None else rng.choice(CC2_CHOICES + [rng.randrange(6, 256)])
     data_end = lay.data_end = 16 + lay.cc2 * 8
     if trailing is None:
@@ -229,6 +248,8 @@ def _gen_once(rng, cc2, nnull, nctl, old_len, align, filler, trailing, uid0, gap
         nlock, nmem = rng.choice([(0, 0), (0, 0), (1, 0), (0, 1), (1, 1), (2, 0), (0, 2), (2, 1), (1, 2), (2, 2)])
     else:
         nlock, nmem = nctl
+    if adjacent and not (nlock + nmem):
+        nlock, nmem = rng.choice([(1, 0), (0, 1)])
     kinds = ["null"] * nnull + ["lock"] * nlock + ["mem"] * nmem
     rng.shuffle(kinds)
     if filler is None:
@@ -237,7 +258,7 @@ def _gen_once(rng, cc2, nnull, nctl, old_len, align, filler, trailing, uid0, gap
     # gap: bytes directly after the last control TLV of the prefix that this TLV announces as reserved
     if gap is None:
         gap = rng.choice([0, 0, 0, 1, 2, 3, 5]) if (nlock + nmem) else 0
-    if not (nlock + nmem):
+    if not (nlock + nmem) or (adjacent and nlock + nmem < 2):
         gap = 0
     if gap:
         # the announcing TLV must be the last prefix element, so that every later TLV starts after the gap
@@ -265,6 +286,8 @@ def _gen_once(rng, cc2, nnull, nctl, old_len, align, filler, trailing, uid0, gap
     if ndef_off + 2 > data_end:
         return None
     protected = set(range(16, min(ndef_off + 4, data_end)))
+    # bytes of `protected` the adjacent range may cover: value bytes of the stored 1-byte-length TLV
+    adj_ok = set((ndef_off + 2, ndef_off + 3)) if adjacent == 2 else set()
     mem = lay.mem = bytearray(rng.randrange(256) for _ in range(size))
     # header
     u0 = uid0 if uid0 is not None else rng.choice([0x01, 0x02, 0x05, 0x07, 0x1D, 0x2E, 0x9F])
@@ -320,6 +343,11 @@ def _gen_once(rng, cc2, nnull, nctl, old_len, align, filler, trailing, uid0, gap
                 placed = (start, "gap")
             else:
                 return None
+        elif adjacent and seen_ctl == 1:
+            start = ndef_off + adjacent
+            if not encodings(start) or start >= data_end:
+                return None
+            placed = (start, "adjacent-len%d" % (adjacent - 1))
         else:
             for _try in range(30):
                 cls = rng.choice(["head", "inside", "inside", "inside", "tail", "cross-end", "beyond", "beyond"])
@@ -361,13 +389,19 @@ def _gen_once(rng, cc2, nnull, nctl, old_len, align, filler, trailing, uid0, gap
         if is_gap:
             pos += gap
     assert pos == ndef_off, (pos, ndef_off, kinds)
-    if reserved & (protected - set(range(ndef_off - gap, ndef_off))):
+    if reserved & (protected - set(range(ndef_off - gap, ndef_off)) - adj_ok):
         return None
     # previous message
     cap = ref_capacity(ndef_off, data_end, reserved)
     if old_len is None:
         old_len = rng.choice([0, 1, 2, 5, 20, 100, 253, 254, 255, 256, 300, cap, cap, cap - 1, rng.randrange(cap + 1)])
     old_len = max(0, min(old_len, cap))
+    if adjacent == 2:
+        old_len = min(old_len, 254)         # the stored TLV has the 1-byte length the range is adjacent to
+    elif adjacent == 4:
+        if cap < 255:
+            return None
+        old_len = max(old_len, 255)
     lay.old = bytes(rng.randrange(256) for _ in range(old_len))
     end = place_ndef(mem, ndef_off, reserved, data_end, lay.old, terminator=rng.random() < 0.75)
     if any(a in reserved for a in range(ndef_off + 4, end)):
